@@ -60,7 +60,7 @@ func c01Gen(t *rapid.T) interface{} {
 		}
 		c.Corpus.Synth = append(c.Corpus.Synth, genSynthDoc(t, i, lo, hi))
 	}
-	if ns > 0 && lib.IntN(t, 0, 2, "readd") == 0 {
+	if (ns > 0 || !c.Corpus.Full) && lib.IntN(t, 0, 2, "readd") == 0 {
 		c.Corpus.ReAdd = true
 	}
 	nc := 1 + lib.Weighted(t, []int{50, 30, 15, 5}, "ncopies")
